@@ -2,7 +2,7 @@
    on the implementation's state dump after every step holds on the dump
    of every reachable state of the model.  The property theorems, and
    nothing else; proofs in Proofs2Monitor.v. *)
-From VF Require Import Nfs41.Spec Nfs41.Proofs2Monitor.
+From VF Require Import Nfs41.Spec Nfs41.Proofs2Monitor Nfs41.Proofs2Monitor2.
 Local Open Scope string_scope.
 Open Scope N_scope.
 
@@ -29,3 +29,22 @@ Theorem monitor_locks_accepts_large_owner_names :
   /\ p_locks [] (dump_of st) = "" /\ p_owner (dump_of st) = "".
 Proof. exact p_locks_large_names. Qed.
 Print Assumptions monitor_locks_accepts_large_owner_names.
+
+(* p_owner (C20:owner-not-registered, C20:owner-filecount,
+   C20:lock-owner-file-maps) and p_locks (C20:lockcount-mismatch,
+   C20:negative-lockcount, C20:orphan-lock, C20:table-not-wf, C20:exclusion;
+   for every trigger list T) hold on the dump of every reachable state of
+   every valid, never-shared history (Proofs2Monitor2.v).  The parts of
+   p_owner about lock-owner files, fileCount and the lock-owner file maps
+   need no hypothesis (p_owner_lofs, p_owner_filecount, p_owner_nlofs). *)
+Theorem monitor_owner_holds_on_model : forall cfg c0 evs,
+  Forall event_valid evs -> never_shared (init cfg c0) evs ->
+  p_owner (dump_of (reachable cfg c0 evs)) = "".
+Proof. exact Proofs2Monitor2.p_owner_reachable. Qed.
+Print Assumptions monitor_owner_holds_on_model.
+
+Theorem monitor_locks_holds_on_model : forall cfg c0 evs,
+  Forall event_valid evs -> never_shared (init cfg c0) evs ->
+  forall T, p_locks T (dump_of (reachable cfg c0 evs)) = "".
+Proof. exact Proofs2Monitor2.p_locks_reachable. Qed.
+Print Assumptions monitor_locks_holds_on_model.
